@@ -335,8 +335,16 @@ pub fn par_run<T: Send>(n: u64, threads: usize, f: impl Fn(u64) -> Option<T> + S
                     if i >= n {
                         break;
                     }
-                    if let Some(r) = f(i) {
-                        local.push((i, r));
+                    // a panic that escapes a job (not inside a monitored step) must not take the process down
+                    match catch(|| f(i)) {
+                        Ok(Some(r)) => local.push((i, r)),
+                        Ok(None) => {}
+                        Err(p) => {
+                            let mut jp = JOB_PANICS.lock().unwrap();
+                            if jp.len() < 50 {
+                                jp.push(format!("job {i}: {p}"));
+                            }
+                        }
                     }
                 }
                 out.lock().unwrap().extend(local);
@@ -488,6 +496,8 @@ pub struct Outcome {
 }
 
 static REPLAY_SEQ: AtomicU64 = AtomicU64::new(0);
+/// panics that escaped a parallel job
+pub static JOB_PANICS: Mutex<Vec<String>> = Mutex::new(Vec::new());
 /// set by --no-evidence (sanitizer passes run the same engines without touching the evidence files)
 pub static NO_EVIDENCE: AtomicBool = AtomicBool::new(false);
 
@@ -506,6 +516,20 @@ pub fn write_replay(prop: &str, seed: u64, doc: &Value) -> PathBuf {
 /// Prints the verdict lines, writes evidence and replay files, returns the process exit code.
 pub fn finish(mut out: Outcome) -> i32 {
     let prop = out.evidence.property_id.clone();
+    // panics that escaped a job: inside the crate under test they contradict whatever the workload was checking
+    // (the node aborted on an input the check considers legitimate); inside the harness they are a harness error
+    let job_panics: Vec<String> = JOB_PANICS.lock().unwrap().clone();
+    let mut harness_errors = 0;
+    for p in &job_panics {
+        if p.contains("chitchat/src/") {
+            out.violations.push((Finding::new(&[], "panic.code_under_test", format!("the crate under test panicked while the {prop} workload drove it outside a monitored step: {p}")), json!({"engine": "job", "panic": p})));
+        } else {
+            harness_errors += 1;
+            if out.evidence.inconclusive.len() < 8 {
+                out.evidence.inconclusive.push(format!("harness error (panic in the harness itself): {p}"));
+            }
+        }
+    }
     let mut shown = 0;
     let nviol = out.violations.len() as u64;
     // de-duplicate by kind: one replay file per kind is enough, but count all
@@ -556,6 +580,9 @@ pub fn finish(mut out: Outcome) -> i32 {
     }
     if nviol > 0 {
         1
+    } else if harness_errors > 0 {
+        println!("INCONCLUSIVE property={prop}: {harness_errors} job(s) ended in a harness error");
+        2
     } else if out.nothing_observed {
         println!("INCONCLUSIVE property={prop}: no trigger event of the property was observed");
         2
